@@ -1,9 +1,9 @@
-\* C21 thorough: one comment, two base layouts, pool of 2
+\* C21 thorough: one comment at every boundary, two base layouts, pool of 2 expressions
 SPECIFICATION LSpec
 CONSTANTS
   Foci = {"lit"}
   Sizes <- SmallSizes
-  LFoci = {"stmt", "stmt2", "fstmt", "decl", "decl2", "class", "pairs", "samples"}
+  LFoci = {"stmt", "fstmt", "decl", "class", "pairs", "samples"}
   Bases = {"canon", "nl"}
   MaxGap = 0
   MaxCm = 1
